@@ -266,6 +266,22 @@ func (w *Walk) block(b *ssa.BasicBlock, from int, env Env, raw map[*ssa.Phi]ssa.
 			}
 		}
 		switch t := in.(type) {
+		case *ssa.Store:
+			// a private local cell (named result, variable of a function with defers): remember
+			// what this path stored, so that a later load of the cell - in another block - is decided
+			if al, ok := t.Addr.(*ssa.Alloc); ok && privateCell(al) {
+				v := w.eval(t.Val, env)
+				ne := make(Env, len(env)+1)
+				for k, x := range env {
+					ne[k] = x
+				}
+				if v.Kind != 0 {
+					ne[al] = v
+				} else {
+					delete(ne, al)
+				}
+				env = ne
+			}
 		case *ssa.Call:
 			if w.followCall(t, b, i, env, raw, fr, st) {
 				return
@@ -369,6 +385,11 @@ func (w *Walk) evalD(v ssa.Value, env Env, d int) Val {
 		if x.Op == token.MUL {
 			if u := unspill(x); u != ssa.Value(x) {
 				return w.evalD(u, env, d+1)
+			}
+			if al, ok := x.X.(*ssa.Alloc); ok && privateCell(al) {
+				if val, ok := env[al]; ok && val.Kind != 0 {
+					return val
+				}
 			}
 			// a second load of a local / captured cell whose earlier load was refined on this path
 			// (if *p != nil { use(*p) }), with nothing in between that could write the cell
@@ -669,4 +690,38 @@ func (w *Walk) refine(cond ssa.Value, env Env) (Env, Env) {
 		return mk(true), mk(false)
 	}
 	return mk(false), mk(true)
+}
+
+var privateCellCache = map[*ssa.Alloc]bool{}
+
+// privateCell: a local variable cell of scalar / interface / pointer type that is only ever stored
+// to and loaded from directly (its address goes nowhere else).
+func privateCell(al *ssa.Alloc) bool {
+	if v, ok := privateCellCache[al]; ok {
+		return v
+	}
+	ok := true
+	switch derefType(al.Type()).Underlying().(type) {
+	case *types.Struct, *types.Array:
+		ok = false
+	}
+	if refs := al.Referrers(); refs != nil && ok {
+		for _, ref := range *refs {
+			switch x := ref.(type) {
+			case *ssa.Store:
+				if x.Addr != ssa.Value(al) {
+					ok = false
+				}
+			case *ssa.UnOp:
+				if x.Op != token.MUL {
+					ok = false
+				}
+			case *ssa.DebugRef:
+			default:
+				ok = false
+			}
+		}
+	}
+	privateCellCache[al] = ok
+	return ok
 }
